@@ -17,7 +17,8 @@
      (libc printf/strto* MODELLED as reference functions: trusted)  integer_prints_canonical, integer_parses_canonical
    fromHex yields the upper-case hexadecimal text                 hex_is_upper_hex (hex digit table regenerated)
    fromBase64 returns the original bytes for every RFC 4648       base64_inverts_rfc4648 (all byte strings: induction
-     encoding                                                       over 3-byte groups + 3 tails), base64_table_inverts_alphabet
+     encoding                                                       over 3-byte groups + 3 tails), base64_decodes_every_rfc4648_text
+                                                                    (the same through the oracle the check uses), base64_table_inverts_alphabet
    ... while handling every other byte string without             base64_in_bounds (input, 123-entry table, output buffer,
      out-of-bounds access                                           no read of an unwritten cell), base64_as_found_refuted
                                                                     (the code before fix 01 leaves the table at byte 0x80)
@@ -164,6 +165,14 @@ Example base64_inverts_rfc4648_nv :
   from_base64 [90; 109; 57; 118; 89; 109; 69; 61] = Ok [102; 111; 111; 98; 97] /\
   from_base64 (rfc4648_encode [255]) = Ok [255] /\ from_base64 (rfc4648_encode [0; 128; 255; 254]) = Ok [0; 128; 255; 254].
 Proof. vm_compute. repeat split. Qed.
+
+Theorem base64_decodes_every_rfc4648_text : forall s bs, rfc4648_preimage s = Some bs -> from_base64 s = Ok bs.
+Proof. exact from_base64_preimage. Qed.
+Print Assumptions base64_decodes_every_rfc4648_text.
+Example base64_decodes_every_rfc4648_text_nv :
+  rfc4648_preimage [90; 109; 57; 118; 89; 109; 69; 61] = Some [102; 111; 111; 98; 97]
+  /\ rfc4648_preimage [90; 109; 57; 118; 89; 109; 70; 61] = None.   (* "Zm9vYmF=": non-zero padding bits, not an encoding *)
+Proof. exact preimage_of_encode_example. Qed.
 
 Theorem base64_table_inverts_alphabet : forall k, 0 <= k < 64 ->
   (w8 (b64_char k) >? 122) = false /\ nth (Z.to_nat (w8 (b64_char k))) gen_base64de 0 = k.
